@@ -46,11 +46,14 @@ Mod(a, n) == a % n     \* TLC's % is the mathematical modulo for n > 0
 \* values are integer codes; FloatBase + n stands for the float n.0 (equal to the int n, a different object of another type)
 FloatBase == 400000
 IsFloat(v) == v >= FloatBase /\ v < FloatBase + 100000
-Num(v) == IF IsFloat(v) THEN v - FloatBase ELSE v
+\* NegBase + n stands for the integer -n
+NegBase == 300000
+IsNeg(v) == v > NegBase /\ v < NegBase + 100000
+Num(v) == IF IsFloat(v) THEN v - FloatBase ELSE IF IsNeg(v) THEN NegBase - v ELSE v
 Sat(cd, v0) ==
   LET v == Num(v0) IN
   CASE cd.k = "none"    -> TRUE
-    [] cd.k = "eq"      -> v = cd.n
+    [] cd.k = "eq"      -> v = Num(cd.n)          \* the stated value is a code too
     [] cd.k = "lt"      -> v < cd.n
     [] cd.k = "gt"      -> v > cd.n
     [] cd.k = "lte"     -> v <= cd.n
